@@ -206,7 +206,13 @@ def call_value(ex, st, f, pos, kw, node=None, star=None, dstar=None):
             if sC.entails(Val.cv(f) == LAT.K[n]):
                 outs += instantiate(ex, sC, n, pos, kw, node, star, dstar); break
         else:
-            raise Unsupported('instantiating a symbolic class')
+            if sC.entails(sub(Val.cv(f), K('BaseException'))):
+                # a user-defined exception class whose constructor is unknown: a new instance of exactly that class, or a TypeError when the
+                # constructor does not accept these arguments
+                o = sC.copy(); e_ = o.sym_exc(label='exc_instance'); o.assume(TYP(Val.addr(e_)) == Val.cv(f))
+                outs.append((o, ('val', e_))); outs.append(ex.raise_(sC.copy(), 'TypeError'))
+            else:
+                raise Unsupported('instantiating a symbolic class')
     if sV is None:
         return outs
     st = sV
